@@ -134,11 +134,11 @@ def ghostRx (rs : Spec.Reasm) (n : Nat) (data : List Nat) : Spec.Reasm × Nat :=
   | .ok (h, p) => if h.hs then ({}, 0) else (rs.feed h p, n)
   | .error _ => (rs, n)
 
-theorem setup_ring (s : Session) (v m w : Nat) : RingRep (s.setup v m w).recv {} 0 := by
-  constructor <;> simp [Session.setup, flat]
+theorem setup_ring (s : Session) (v m w now : Nat) : RingRep (s.setup v m w now).recv {} 0 := by
+  constructor <;> simp only [Session.setup] <;> (try split) <;> simp [flat]
 
 theorem handshakeReq_ring {s : Session} {g : Option Nat} {h : Hdr} {p : List Nat} {s' : Session}
-    (hok : s.processRxHandshakeReq g h p = .ok s') : RingRep s'.recv {} 0 := by
+    {now : Nat} (hok : s.processRxHandshakeReq g h p now = .ok s') : RingRep s'.recv {} 0 := by
   unfold Session.processRxHandshakeReq at hok
   split at hok
   · cases hok
@@ -152,10 +152,10 @@ theorem handshakeReq_ring {s : Session} {g : Option Nat} {h : Hdr} {p : List Nat
         · split at hok
           · cases hok
           · have := Except.ok.inj hok
-            rw [← this]; exact setup_ring _ _ _ _
+            rw [← this]; exact setup_ring _ _ _ _ _
 
 theorem handshakeResp_ring {s : Session} {h : Hdr} {p : List Nat} {s' : Session}
-    (hok : s.processRxHandshakeResp h p = .ok s') : RingRep s'.recv {} 0 := by
+    {now : Nat} (hok : s.processRxHandshakeResp h p now = .ok s') : RingRep s'.recv {} 0 := by
   unfold Session.processRxHandshakeResp at hok
   split at hok
   · cases hok
@@ -164,7 +164,7 @@ theorem handshakeResp_ring {s : Session} {h : Hdr} {p : List Nat} {s' : Session}
     · split at hok
       · cases hok
       · have := Except.ok.inj hok
-        rw [← this]; exact setup_ring _ _ _ _
+        rw [← this]; exact setup_ring _ _ _ _ _
 
 theorem processRx_ring {s : Session} (hs : SInv s) {rs : Spec.Reasm} {n : Nat} (hr : RingRep s.recv rs n)
     {g : Option Nat} {data : List Nat} (hd : Bytes data) {now : Nat} {s' : Session}
@@ -392,7 +392,7 @@ theorem mon_step (m : Mon) (hm : MInv m) (op : EOp) (hb : ∀ d now, op = .rx d 
 def viewOf (s : Session) : Spec.View :=
   { lastSeq := s.recv.ackSeq, window := s.windowSize, unackedRx := s.recv.ackLevel,
     lastSent := s.send.lastSent, outstanding := s.windowSize - s.send.level,
-    remaining := s.recv.remMsgLen }
+    remaining := s.recv.remMsgLen, segSize := s.mtu }
 
 theorem commit_err_panic {r : RecvWindow} {h : Hdr} {pfx p : List Nat} {rem now : Nat} {e : Fail}
     (he : r.commit h pfx p rem now = .error e) : e.isPanic = true := by
@@ -416,6 +416,79 @@ theorem commit_err_panic {r : RecvWindow} {h : Hdr} {pfx p : List Nat} {rem now 
         · cases h3
       · cases he
 
+/-- the refusals of `RecvWindow::accept_incoming` (the code's tests, in the code's order) as one Boolean -/
+def recvBad (r : RecvWindow) (h : Hdr) (payload : List Nat) (mtu : Nat) : Bool :=
+  !r.checkDataIntegrity h payload.length mtu
+  || r.level == 0
+  || (h.getMsgLen.isSome && r.remMsgLen > 0)
+  || fitsButNotFinal h mtu
+  || orphanSegment r h
+  || decide (r.startRem h.getMsgLen < payload.length)
+  || (!h.fin && !payload.isEmpty && r.startRem h.getMsgLen - payload.length == 0)
+  || (h.fin && r.startRem h.getMsgLen - payload.length > 0)
+  || decide (ringFree r.buf < (sduPrefix h.getMsgLen).length + payload.length)
+
+/-- `RecvWindow::accept_incoming` on a state satisfying the invariant: refused with `InvalidData`
+exactly when one of its tests fires, accepted otherwise (the mutating tail cannot fail). -/
+theorem acceptIncoming_cases {w : Nat} (hw : w ≤ 255) {r : RecvWindow} (hri : RInv w r) {h : Hdr} (hh : h.Wf)
+    (p : List Nat) (mtu now : Nat) :
+    (recvBad r h p mtu = true ∧ r.acceptIncoming h p mtu now = .error .invalidData) ∨
+    (recvBad r h p mtu = false ∧ ∃ r', r.acceptIncoming h p mtu now = .ok r') := by
+  cases hr : r.acceptIncoming h p mtu now with
+  | ok r' =>
+    right
+    obtain ⟨h1, h2, h3, h4, h5, h6, h7, h8, _⟩ := acceptIncoming_inv hr
+    refine ⟨?_, r', rfl⟩
+    have h2' : (r.level == 0) = false := by simpa using h2
+    have h3' : (h.getMsgLen.isSome && decide (r.remMsgLen > 0)) = false := by
+      cases hb : (h.getMsgLen.isSome && decide (r.remMsgLen > 0)) with
+      | false => rfl
+      | true => exact absurd (by simpa using hb) h3
+    have h5' : decide (r.startRem h.getMsgLen < p.length) = false := by simp; omega
+    have h6' : (!h.fin && !p.isEmpty && r.startRem h.getMsgLen - p.length == 0) = false := by
+      cases hb : (!h.fin && !p.isEmpty && r.startRem h.getMsgLen - p.length == 0) with
+      | false => rfl
+      | true =>
+        exfalso; apply h6
+        simp at hb
+        exact ⟨hb.1.1, hb.1.2, by omega⟩
+    have h7' : (h.fin && decide (r.startRem h.getMsgLen - p.length > 0)) = false := by
+      cases hb : (h.fin && decide (r.startRem h.getMsgLen - p.length > 0)) with
+      | false => rfl
+      | true =>
+        exfalso; apply h7
+        simp at hb
+        exact ⟨hb.1, by omega⟩
+    have h8' : decide (ringFree r.buf < (sduPrefix h.getMsgLen).length + p.length) = false := by simp; omega
+    unfold recvBad
+    rw [h1, h2', h3', h4, acceptIncoming_not_orphan hr, h5', h6', h7', h8']; rfl
+  | error e =>
+    left
+    have c := recvAccept_clean w hw r hri h hh p mtu now
+    rw [hr] at c
+    simp only [Clean] at c
+    unfold RecvWindow.acceptIncoming at hr
+    split at hr
+    · rename_i hc; cases hr; exact ⟨by simp [recvBad, hc], rfl⟩
+    split at hr
+    · rename_i hc; cases hr; exact ⟨by simp [recvBad, hc], rfl⟩
+    split at hr
+    · rename_i hc; cases hr; exact ⟨by simp [recvBad, hc], rfl⟩
+    split at hr
+    · rename_i hc; cases hr; exact ⟨by simp [recvBad, hc], rfl⟩
+    split at hr
+    · rename_i hc; cases hr; exact ⟨by simp [recvBad, hc], rfl⟩
+    split at hr
+    · rename_i hc; cases hr; exact ⟨by simp [recvBad, hc], rfl⟩
+    split at hr
+    · rename_i hc; cases hr; exact ⟨by simp [recvBad, hc], rfl⟩
+    split at hr
+    · rename_i hc; cases hr; exact ⟨by simp [recvBad, hc], rfl⟩
+    split at hr
+    · rename_i hc; cases hr; exact ⟨by simp [recvBad, hc], rfl⟩
+    have := commit_err_panic hr
+    rw [c] at this; cases this
+
 /-- a data segment passes the receive window only if all of this holds -/
 theorem acceptIncoming_ok_only {w : Nat} (hw : w ≤ 255) {r : RecvWindow} (hri : RInv w r) {h : Hdr} (hh : h.Wf)
     {p : List Nat} {mtu now : Nat}
@@ -424,9 +497,9 @@ theorem acceptIncoming_ok_only {w : Nat} (hw : w ≤ 255) {r : RecvWindow} (hri 
       (h.fin = false ∧ p ≠ [] ∧ r.startRem h.getMsgLen - p.length = 0) ∨
       (h.fin = true ∧ r.startRem h.getMsgLen - p.length > 0)) :
     r.acceptIncoming h p mtu now = .error .invalidData := by
-  cases hr : r.acceptIncoming h p mtu now with
-  | ok r' =>
-    obtain ⟨h1, h2, h3, _, h5, h6, h7, _, _⟩ := acceptIncoming_inv hr
+  rcases acceptIncoming_cases hw hri hh p mtu now with ⟨_, h2⟩ | ⟨_, r', hr⟩
+  · exact h2
+  · obtain ⟨h1, h2, h3, _, h5, h6, h7, _, _⟩ := acceptIncoming_inv hr
     rcases hbad with hb | hb | hb | hb | hb | hb
     · rw [h1] at hb; cases hb
     · exact absurd hb h2
@@ -434,16 +507,6 @@ theorem acceptIncoming_ok_only {w : Nat} (hw : w ≤ 255) {r : RecvWindow} (hri 
     · omega
     · exact absurd hb h6
     · exact absurd hb h7
-  | error e =>
-    -- every refusal of the receive window is `InvalidData` unless the commit panics, which needs level = 0
-    have c := recvAccept_clean w hw r hri h hh p mtu now
-    rw [hr] at c
-    simp only [Clean] at c
-    unfold RecvWindow.acceptIncoming at hr
-    repeat (split at hr; (cases hr; rfl))
-    have := commit_err_panic hr
-    rw [c] at this; cases this
-
 
 theorem integrity_seq {r : RecvWindow} {h : Hdr} {n mtu : Nat} (hc : r.checkDataIntegrity h n mtu = true) :
     h.seqNum = (r.ackSeq + 1) % 256 := by
@@ -459,16 +522,17 @@ theorem integrity_seq {r : RecvWindow} {h : Hdr} {n mtu : Nat} (hc : r.checkData
   have := beq_iff_eq.mp hc
   omega
 
-/-- **Hostile peer, clause "refused with an error"**: a data segment that violates the protocol in
-one of the ways named by the property (`Spec.mustReject` on the protocol-level view of the state:
-wrong sequence number, window overrun, acknowledgement of something that is not awaiting one,
-inconsistent length or flags) is refused with `InvalidData`; by `Except` the state is unchanged. -/
-theorem mustReject_refused (s : Session) (hs : SInv s) (h : Hdr) (hh : h.Wf) (hhs : h.hs = false)
-    (p : List Nat) (now : Nat) (hm : Spec.mustReject (viewOf s) h p = true) :
-    s.processRxData h p now = .error .invalidData := by
+/-- the refusal of `SendWindow::check_incoming` as a Boolean (the code's test) -/
+def ackBad (s : Session) (h : Hdr) : Bool :=
+  h.ack && decide (wrapSub s.send.lastSent h.ackNum ≥ s.windowSize - s.send.level)
+
+/-- `Session::process_rx_data` on a state satisfying the invariant: refused with `InvalidData`
+exactly when one of the code's tests fires; otherwise accepted. No other outcome exists. -/
+theorem processRxData_cases (s : Session) (hs : SInv s) (h : Hdr) (hh : h.Wf) (p : List Nat) (now : Nat) :
+    ((ackBad s h || recvBad s.recv h p s.mtu) = true ∧ s.processRxData h p now = .error .invalidData) ∨
+    ((ackBad s h || recvBad s.recv h p s.mtu) = false ∧ ∃ s', s.processRxData h p now = .ok s') := by
   unfold Session.processRxData
   have hle : s.send.level ≤ s.send.windowSize := by rw [hs.sendWs]; exact hs.sendLe
-  -- the acknowledgement check
   by_cases hack : h.ack = true ∧ wrapSub s.send.lastSent h.ackNum ≥ s.windowSize - s.send.level
   · have : s.send.checkIncoming h = .error .invalidData := by
       unfold SendWindow.checkIncoming
@@ -478,61 +542,145 @@ theorem mustReject_refused (s : Session) (hs : SInv s) (h : Hdr) (hh : h.Wf) (hh
       rw [hs.sendWs]
       simp [hack.2]
     rw [this]
-  · have c1 := sendCheck_clean s.send hle h
+    left
+    refine ⟨?_, rfl⟩
+    simp [ackBad, hack.1, hack.2]
+  · have hab : ackBad s h = false := by
+      cases hb : ackBad s h with
+      | false => rfl
+      | true =>
+        exfalso; apply hack
+        simp [ackBad] at hb
+        exact ⟨hb.1, by have := hb.2; omega⟩
+    have c1 := sendCheck_clean s.send hle h
     cases hc : s.send.checkIncoming h with
     | error e =>
-      -- an error of the acknowledgement check is InvalidData
+      exfalso
       unfold SendWindow.checkIncoming at hc
       split at hc
       · cases hc
-      · rw [csub_ok hle] at hc
+      · rename_i a ha
+        rw [csub_ok hle] at hc
         simp only at hc
         split at hc
-        · cases hc; rfl
+        · rename_i hge
+          apply hack
+          unfold Hdr.getAck at ha
+          split at ha
+          · rename_i hak
+            cases ha
+            exact ⟨hak, by rw [hs.sendWs] at hge; exact hge⟩
+          · cases ha
         · cases hc
     | ok u =>
+      rw [hc] at c1
+      simp only [Clean] at c1
       simp only
-      have hgm : h.getMsgLen = if h.beg then some h.msgLen else none := by
-        simp [Hdr.getMsgLen, hhs]
-      have hbad : s.recv.acceptIncoming h p s.mtu now = .error .invalidData := by
-        apply acceptIncoming_ok_only hs.wsLe (rinv_of_sinv hs) hh
-        simp [Spec.mustReject, viewOf] at hm
-        have hsr : ∀ b : Bool, h.beg = b → s.recv.startRem (if b then some h.msgLen else none) =
-            (if b = true then h.msgLen else s.recv.remMsgLen) := by
-          intro b _; cases b <;> simp [RecvWindow.startRem]
-        rw [hgm]
-        rcases hm with ((((((hm | hm) | hm) | hm) | hm) | hm) | hm) | hm
-        · -- wrong sequence number
-          left
-          have hm' := of_decide_eq_true hm
-          cases hci : s.recv.checkDataIntegrity h p.length s.mtu with
-          | false => rfl
-          | true => exact absurd (integrity_seq hci) hm'
-        · -- window overrun
-          right; left
-          have := hs.recvSum; omega
-        · exfalso; apply hack; refine ⟨hm.1, ?_⟩
-          have := hm.2; have := hs.sendLe; omega
-        · right; right; left
-          simp [hm.1]; exact hm.2
-        · right; right; right; left
-          obtain ⟨⟨hb, hr0⟩, hpl⟩ := hm
-          have hr0' := of_decide_eq_true hr0
-          rw [hsr _ rfl]; simp [hb]; omega
-        · right; right; right; left
-          have hm' := of_decide_eq_true hm
-          rw [hsr _ rfl]; exact hm'
-        · right; right; right; right; right
-          refine ⟨hm.1, ?_⟩
-          rw [hsr _ rfl]; have := hm.2; omega
-        · right; right; right; right; left
-          obtain ⟨⟨hf, hpl⟩, heq⟩ := hm
-          have heq' := of_decide_eq_true heq
-          refine ⟨hf, ?_, ?_⟩
-          · intro hp; simp [hp] at hpl
-          · rw [hsr _ rfl]; omega
-      rw [hbad]
+      rw [hab, Bool.false_or]
+      rcases acceptIncoming_cases hs.wsLe (rinv_of_sinv hs) hh p s.mtu now with ⟨hb, hr⟩ | ⟨hb, r', hr⟩
+      · left; rw [hr]; exact ⟨hb, rfl⟩
+      · right
+        rw [hr]
+        simp only
+        obtain ⟨w', hw', _⟩ := sendAccept_ok s.send hle h now c1
+        rw [hw']
+        exact ⟨hb, _, rfl⟩
 
+/-- **The acknowledgement clause of the specification, from its meaning, equals the code's
+wrap-around test**: `a` is the sequence number of one of the `n` most recently sent segments
+(`lastSent`, `lastSent − 1`, …, `lastSent − n + 1` modulo 256) iff `(lastSent − a) mod 256 < n`. -/
+theorem mem_awaitingAck (v : Spec.View) (a : Nat) (hl : v.lastSent < 256) (ha : a < 256)
+    (hn : v.outstanding ≤ 256) :
+    a ∈ Spec.awaitingAck v ↔ wrapSub v.lastSent a < v.outstanding := by
+  unfold Spec.awaitingAck wrapSub
+  simp only [List.mem_map, List.mem_range]
+  constructor
+  · rintro ⟨i, hi, rfl⟩
+    omega
+  · intro h
+    exact ⟨(v.lastSent + 256 - a) % 256, h, by omega⟩
+
+/-- **Specification = code** for the refusal of a data segment: the disjunction of the code's
+tests (`ackBad`: `SendWindow::check_incoming`; `recvBad`: `check_data_integrity` and the tests of
+`RecvWindow::accept_incoming`) equals the specification `Spec.mustReject` on the protocol-level
+view, or the resource limit `Spec.noRoom`. -/
+theorem spec_matches_code (s : Session) (hs : SInv s) (h : Hdr) (hh : h.Wf) (hhs : h.hs = false)
+    (p : List Nat) :
+    (ackBad s h || recvBad s.recv h p s.mtu) =
+      (Spec.mustReject (viewOf s) h p || Spec.noRoom (ringFree s.recv.buf) h p) := by
+  have hmem := mem_awaitingAck (viewOf s) h.ackNum hs.lastLt hh.ack
+    (by show s.windowSize - s.send.level ≤ 256; have := hs.wsLe; omega)
+  have hack : ackBad s h = (h.ack && !(Spec.awaitingAck (viewOf s)).contains h.ackNum) := by
+    unfold ackBad
+    cases h.ack with
+    | false => rfl
+    | true =>
+      simp only [Bool.true_and]
+      by_cases hm : h.ackNum ∈ Spec.awaitingAck (viewOf s)
+      · have h1 := hmem.mp hm
+        have : (Spec.awaitingAck (viewOf s)).contains h.ackNum = true := by simpa using hm
+        rw [this]
+        simp
+        simp only [viewOf] at h1
+        omega
+      · have h1 : ¬ wrapSub (viewOf s).lastSent h.ackNum < (viewOf s).outstanding := fun hc => hm (hmem.mpr hc)
+        have : (Spec.awaitingAck (viewOf s)).contains h.ackNum = false := by simpa using hm
+        rw [this]
+        simp
+        simp only [viewOf] at h1
+        omega
+  rw [hack]
+  clear hack hmem
+  unfold Spec.mustReject
+  have hsum := hs.recvSum
+  have hpe : p.isEmpty = decide (p.length = 0) := by cases p <;> simp
+  generalize (Spec.awaitingAck (viewOf s)).contains h.ackNum = q
+  generalize hn : p.length = n at *
+  obtain ⟨hs_, mgmt, ack, fin, cont, beg, opcode, ackNum, seqNum, msgLen⟩ := h
+  simp only at hhs
+  subst hhs
+  cases q <;> cases mgmt <;> cases ack <;> cases fin <;> cases cont <;> cases beg <;>
+    (rw [Bool.eq_iff_iff]; by_cases hml : 0 < msgLen <;>
+      simp [recvBad, Spec.noRoom, Spec.badFlags, Spec.badLength, Spec.expected, Spec.isAckOnly,
+        viewOf, RecvWindow.checkDataIntegrity, Hdr.getOpcode, Hdr.isStandaloneAck, Hdr.getMsgLen, Hdr.getAck,
+        Hdr.getSeq, Hdr.len, fitsButNotFinal, orphanSegment, RecvWindow.startRem, sduPrefix, hpe, hn, hml] <;> (constructor <;> intro hx <;> omega))
+
+/-- **A data segment is refused with `InvalidData` exactly when it violates the protocol
+(`Spec.mustReject` on the protocol-level view of the state) or does not fit the receive buffer
+(`Spec.noRoom`)**; in every other case it is accepted - there is no third outcome. -/
+theorem segment_refused_iff_aux (s : Session) (hs : SInv s) (h : Hdr) (hh : h.Wf) (hhs : h.hs = false)
+    (p : List Nat) (now : Nat) :
+    (s.processRxData h p now = .error .invalidData ↔
+      (Spec.mustReject (viewOf s) h p = true ∨ Spec.noRoom (ringFree s.recv.buf) h p = true)) ∧
+    ((∃ s', s.processRxData h p now = .ok s') ↔
+      (Spec.mustReject (viewOf s) h p = false ∧ Spec.noRoom (ringFree s.recv.buf) h p = false)) := by
+  have heq := spec_matches_code s hs h hh hhs p
+  rcases processRxData_cases s hs h hh p now with ⟨hb, hr⟩ | ⟨hb, s', hr⟩
+  · rw [heq] at hb
+    have hb' : Spec.mustReject (viewOf s) h p = true ∨ Spec.noRoom (ringFree s.recv.buf) h p = true := by
+      simpa using hb
+    refine ⟨⟨fun _ => hb', fun _ => hr⟩, ⟨?_, ?_⟩⟩
+    · rintro ⟨s', h1⟩; rw [hr] at h1; cases h1
+    · rintro ⟨h1, h2⟩; rcases hb' with h3 | h3
+      · rw [h1] at h3; cases h3
+      · rw [h2] at h3; cases h3
+  · rw [heq] at hb
+    have hb' : Spec.mustReject (viewOf s) h p = false ∧ Spec.noRoom (ringFree s.recv.buf) h p = false := by
+      simpa using hb
+    refine ⟨⟨?_, ?_⟩, ⟨fun _ => hb', fun _ => ⟨s', hr⟩⟩⟩
+    · intro h1; rw [hr] at h1; cases h1
+    · rintro (h1 | h1)
+      · rw [hb'.1] at h1; cases h1
+      · rw [hb'.2] at h1; cases h1
+
+/-- **Hostile peer, clause "refused with an error"**: a data segment that violates the protocol in
+one of the ways named by the property (`Spec.mustReject` on the protocol-level view of the state:
+wrong sequence number, window overrun, acknowledgement of something that is not awaiting one,
+inconsistent length or flags) is refused with `InvalidData`; by `Except` the state is unchanged. -/
+theorem mustReject_refused (s : Session) (hs : SInv s) (h : Hdr) (hh : h.Wf) (hhs : h.hs = false)
+    (p : List Nat) (now : Nat) (hm : Spec.mustReject (viewOf s) h p = true) :
+    s.processRxData h p now = .error .invalidData :=
+  (segment_refused_iff_aux s hs h hh hhs p now).1.mpr (.inl hm)
 
 /-- `is_ack_due` holds at the deadline whenever an acknowledgement is pending -/
 theorem isAckDue_at_deadline (s : Session) (t now : Nat) (hp : s.recv.pendingAck.isSome = true)
